@@ -88,7 +88,7 @@ func BuildMixed(mc MixCfg, g *Graph) (*ggql.Root, *Run, error) {
 		db := &fsBuilder{r: r, objs: map[*Node]interface{}{}}
 		r.fsb = db
 		for i, dn := range dg.Nodes {
-			if dn.Type == "Mutation" {
+			if dn.Type == "Mutation" || dn.Type == "V" {
 				continue
 			}
 			db.obj(dn)
